@@ -179,6 +179,10 @@ theorem secret_absent_from_fields (Bad : Bytes → Prop) (s : Scn) (hoff : s.cre
     · simp at he; subst he
       simpa [hoff] using loggableHeader_clean Bad _ hout hred
     · simp at he
+      rcases he with rfl | rfl
+      · simpa [hoff] using loggableHeader_clean Bad _ hout hred
+      · simpa [hoff] using loggableHeader_clean Bad _ hup hred
+    · simp at he
       rcases he with rfl | rfl <;> simpa [hoff] using loggableHeader_clean Bad _ hout hred
     · simp at he
   · unfold errorEntries at he
@@ -217,6 +221,7 @@ theorem sites_use_server_flag (s : Scn) :
     split at he <;> simp at he
     · rcases he with rfl | rfl <;> simp
     · subst he; simp
+    · rcases he with rfl | rfl | rfl <;> simp
     · rcases he with rfl | rfl <;> simp
   · unfold errorEntries at he
     split at he
@@ -228,6 +233,80 @@ theorem sites_use_server_flag (s : Scn) :
     · rcases List.mem_flatMap.mp he with ⟨n, _, he⟩
       simp at he
       rcases he with rfl | rfl <;> simp
+
+/-! ### response header maps -/
+
+/-- **which sites log a response header map, and how.** Whatever path a proxied request takes — a normal
+    response, a response handled by `handle_response` routes, a retried round trip, 101 Switching Protocols
+    (HTTP/1.1 Upgrade or extended CONNECT over HTTP/2; the upgrade path itself logs no header object), an
+    intercepted response — the only header objects built from a RESPONSE header map are the reverse proxy's
+    `headers` (the upstream response as received) and the access log's `resp_headers` (the response as sent),
+    both through `LoggableHTTPHeader` with the server's flag. -/
+theorem response_header_sites (s : Scn) :
+    ∀ e ∈ siteEntries s, (e.obj = str "headers" ∨ e.obj = str "resp_headers") →
+      (e.hdr = loggableHeader s.tUp s.creds ∨ e.hdr = loggableHeader s.tResp s.creds) := by
+  have h1 : str "request>headers" ≠ str "headers" := by decide
+  have h2 : str "request>headers" ≠ str "resp_headers" := by decide
+  intro e he hobj
+  unfold siteEntries at he
+  simp only [List.mem_append] at he
+  rcases he with ((he | he) | he) | he
+  · unfold rewriteEntries at he
+    split at he <;> simp at he
+    subst he
+    rcases hobj with h | h
+    · exact absurd h h1
+    · exact absurd h h2
+  · unfold proxyEntries at he
+    split at he <;> simp at he
+    · rcases he with rfl | rfl
+      · rcases hobj with h | h
+        · exact absurd h h1
+        · exact absurd h h2
+      · exact Or.inl rfl
+    · subst he
+      rcases hobj with h | h
+      · exact absurd h h1
+      · exact absurd h h2
+    · rcases he with rfl | rfl
+      · rcases hobj with h | h
+        · exact absurd h h1
+        · exact absurd h h2
+      · exact Or.inl rfl
+    · rcases he with rfl | rfl <;> rcases hobj with h | h <;> first | exact absurd h h1 | exact absurd h h2
+  · unfold errorEntries at he
+    split at he
+    · rcases List.mem_map.mp he with ⟨n, _, rfl⟩
+      rcases hobj with h | h
+      · exact absurd h h1
+      · exact absurd h h2
+    · simp at he
+  · unfold accessEntries at he
+    split at he
+    · simp at he
+    · rcases List.mem_flatMap.mp he with ⟨n, _, he⟩
+      simp at he
+      rcases he with rfl | rfl
+      · rcases hobj with h | h
+        · exact absurd h h1
+        · exact absurd h h2
+      · exact Or.inr rfl
+
+/-- **response headers: exactly the credentials are hidden.** Applied to a response header map the wrapper
+    replaces the values of `Set-Cookie` (the credential a response carries; also `Cookie`, `Authorization`,
+    `Proxy-Authorization` should a response have them) — in any casing, with any number of values, also when
+    kept as `Trailer:Set-Cookie` — and nothing else: challenge and handshake headers that merely look similar
+    (`Proxy-Authenticate`, `WWW-Authenticate`, `Authentication-Info`, `Upgrade`, `Sec-WebSocket-Accept`) are
+    not credentials and are logged as they are. -/
+theorem response_headers_hide_exactly_credentials (h : Hdr) :
+    loggableHeader h false = h.map (fun kv => if isCred kv.1 then (kv.1, redactedVal) else kv) ∧
+    (∀ k, k.map lowerByte = str "set-cookie" → isCred k = true ∧ isCred (trailerPrefix ++ k) = true) ∧
+    ([str "Proxy-Authenticate", str "WWW-Authenticate", str "Authentication-Info", str "Upgrade",
+      str "Sec-WebSocket-Accept", str "Connection"].all fun k => !isCred k) = true := by
+  refine ⟨redacted h, ?_, by decide⟩
+  intro k hk
+  have hn : str "set-cookie" ∈ credNames := by decide
+  exact ⟨cred_any_casing k _ hn hk, cred_trailer_any_casing k _ hn hk⟩
 
 /-! ### regenerated facts (`Gen/*.lean` is rewritten from /repo's source on every run) -/
 
@@ -491,6 +570,17 @@ example : (loggableRequest exReq false).map (·.key) =
      str "headers>cOOkie", str "headers>X", str "headers>Proxy-Authorization", str "transfer_encoding"] := by decide
 example : ∀ b ∈ fieldStrings (loggableRequest exReq false), occurs (str "SECRET") b = false := by decide
 example : ∃ b ∈ fieldStrings (loggableRequest exReq true), occurs (str "SECRET") b = true := by decide
+
+-- the upstream's 101 answer: Set-Cookie is hidden, the handshake headers are not
+example : loggableHeader [(str "Connection", [str "Upgrade"]), (str "Upgrade", [str "websocket"]),
+      (str "SET-cookie", [[], str "sid=SECRET"]), (str "Proxy-Authenticate", [str "Basic realm=x"])] false =
+    [(str "Connection", [str "Upgrade"]), (str "Upgrade", [str "websocket"]),
+      (str "SET-cookie", [str "REDACTED"]), (str "Proxy-Authenticate", [str "Basic realm=x"])] := by decide
+-- a retried round trip: two request entries, then the response headers
+example : (siteEntries { exScn with route := .proxyRetry, rewrote := false, names := [[]] }).map (fun e => (e.logger, e.obj)) =
+    [(str "http.handlers.reverse_proxy", str "request>headers"), (str "http.handlers.reverse_proxy", str "request>headers"),
+     (str "http.handlers.reverse_proxy", str "headers"), (str "http.log.access", str "request>headers"),
+     (str "http.log.access", str "resp_headers")] := by decide
 
 def exO : Oracles where
   H := fun s => 104 :: s.reverse
